@@ -69,6 +69,7 @@ fn run(req: &Req) -> Value {
         };
         let res = beff_core::extract(&mut man, entry);
         let fetched = man.fetched.clone();
+        let parse_failed = man.parse_failed.clone();
         let mut diags = vec![];
         for e in &res.errors {
             let variant = variant_name(&format!("{:?}", e.message));
@@ -104,13 +105,13 @@ fn run(req: &Req) -> Value {
         };
         if !res.errors.is_empty() {
             return json!({"outcome": "diagnostics", "diagnostics": diags, "wasm_json": wasm_json,
-                "parser_names": parser_names, "fetched": fetched});
+                "parser_names": parser_names, "fetched": fetched, "parse_failed": parse_failed});
         }
         match res.emit_code() {
             Ok(code) => json!({"outcome": "code", "code": code, "parser_names": parser_names,
-                "has_build_parsers": has_build_parsers, "fetched": fetched, "types": dbg_types}),
+                "has_build_parsers": has_build_parsers, "fetched": fetched, "parse_failed": parse_failed, "types": dbg_types}),
             Err(e) => json!({"outcome": "emit_error", "message": e.to_string(),
-                "parser_names": parser_names, "fetched": fetched}),
+                "parser_names": parser_names, "fetched": fetched, "parse_failed": parse_failed}),
         }
     })
 }
@@ -121,7 +122,7 @@ fn handle(req: Req) -> (Value, bool) {
     let (tx, rx) = mpsc::channel::<(Value, u64)>();
     let (tid_tx, tid_rx) = mpsc::channel::<i64>();
     let handle = std::thread::Builder::new()
-        .stack_size(256 << 20)
+        .stack_size(64 << 20)
         .spawn(move || {
             let _ = tid_tx.send(current_tid());
             let r = std::panic::catch_unwind(std::panic::AssertUnwindSafe(|| run(&req)));
